@@ -193,7 +193,13 @@ func ruleOnce(c *Ctx) {
 		c.R.Violate("R-ONCE", p.Pos(f.Node()), f.Name, "launch at most once",
 			"no Client field guards the launch region ("+strings.Join(sites, ", ")+") as a once-flag. Candidates: "+strings.Join(report, "; "), nil)
 	}
-	// Client() cache
+	ruleClientCache(c)
+}
+
+// ruleClientCache: Client() creates a protocol client only when none is cached,
+// returns the cached one otherwise, and clears the cache on failure.
+func ruleClientCache(c *Ctx) {
+	p := c.P
 	cf := p.Fn("Client.Client")
 	if cf == nil {
 		c.R.Undecided("R-ONCE", "Client.Client", "anchor", "function not found")
